@@ -14,7 +14,7 @@ func init() {
 	register(&Property{
 		ID:          "C10",
 		Run:         runC10,
-		Explanation: "Decides the structural clauses of failure classification and bounded recovery on every path of the two lifecycle services: (R1) the cleanup goroutine calls recoverPipeline only on the not-fatal (v2: and not-shutting-down, not-intentionally-stopped) edge, writes Degraded only on the fatal edge or after a failed recovery, and writes only a stopped status when the tomb is still alive / after a deliberate stop; (R2) recoverPipeline / StartWithBackoff have closed caller sets; (R3) StartWithBackoff waits and restarts only below the retry bound (exceeding it returns a fatal error), restarts only when the run it belongs to is still the published one, and the attempt counter is touched only by its +1/−1 (no reset); (R4) force stop and exhausted retries are fatal-tagged in both engines and a processor error whose nack fails is fatal in v1; (R5) v2 marks a deliberate stop before it stops any worker and StopAll marks the shutdown before stopping; (R7) a v2 worker kills the tomb with its own error before closing itself, so the root cause decides the classification; (R8) in both engines a run parked in the recovery back-off is not restarted once a stop or a graceful shutdown marked it, and the cleanup goroutine finalizes that as UserStopped / SystemStopped; (R4 also) a failed v1 DLQ write and a v2 processor error whose nack fails are returned as fatal errors.",
+		Explanation: "Decides the structural clauses of failure classification and bounded recovery on every path of the two lifecycle services: (R1) the cleanup goroutine calls recoverPipeline only on the not-fatal (v2: and not-shutting-down, not-intentionally-stopped) edge, writes Degraded only on the fatal edge or after a failed recovery, and writes only a stopped status when the tomb is still alive / after a deliberate stop; (R2) recoverPipeline / StartWithBackoff have closed caller sets; (R3) StartWithBackoff waits and restarts only below the retry bound (exceeding it returns a fatal error), restarts only when the run it belongs to is still the published one, and the attempt counter is touched only by its +1/−1 (no reset); (R4) force stop and exhausted retries are fatal-tagged in both engines and a processor error whose nack fails is fatal in v1; (R5) v2 marks a deliberate stop before it stops any worker and StopAll marks the shutdown before stopping; (R7) a v2 worker kills the tomb with its own error before closing itself and a v1 node goroutine kills it with its own result before nodesWg.Done(), so the root cause (and not a still-alive tomb) decides the classification; (R8) in both engines a run parked in the recovery back-off is not restarted once a stop or a graceful shutdown marked it, and the cleanup goroutine finalizes that as UserStopped / SystemStopped; (R4 also) a failed v1 DLQ write and a v2 processor error whose nack fails are returned as fatal errors.",
 		NotDecided:  []string{"which goroutine wins the tomb at run time", "delays and windows (timing)", "v1/v2 parity of 'DLQ write failure is fatal' and 'processor error with the DLQ disabled' (reported as notes only — not demonstrated defects)"},
 		Assumptions: []string{"tomb.v2: the first Kill reason is the tomb's error", "cerrors.IsFatalError (C20.R4)"},
 	})
@@ -560,6 +560,37 @@ func c10R4(c *Ctx) {
 				continue
 			}
 			ok := f == fatal || f.Name() == "handleSingleRecord" || f.Name() == "Nack"
+			if !ok {
+				// a helper of the same package all of whose error returns are fatal or delegated
+				var summary func(h *ssa.Function, depth int) bool
+				summary = func(h *ssa.Function, depth int) bool {
+					if h == nil || len(h.Blocks) == 0 || h.Pkg != fn.Pkg || depth <= 0 {
+						return false
+					}
+					n := 0
+					for _, hr := range kit.Returns(h) {
+						hv := kit.RetVal(hr, len(hr.Results)-1)
+						if kit.IsNilConst(hv) {
+							continue
+						}
+						hc, isC := hv.(*ssa.Call)
+						if !isC {
+							return false
+						}
+						hf := kit.CalleeOf(hc.Common())
+						if hf == nil {
+							return false
+						}
+						if hf == fatal || hf.Name() == "handleSingleRecord" || hf.Name() == "Nack" || summary(hc.Call.StaticCallee(), depth-1) {
+							n++
+							continue
+						}
+						return false
+					}
+					return n > 0
+				}
+				ok = summary(call.Call.StaticCallee(), 2)
+			}
 			c.R.Check(ok, r, "v1 handleProcessedRecord: error returns are fatal or delegated", c.Pos(posOf(ret)), f.Name(), "handleProcessedRecord returns a non-fatal constructed error", true)
 		}
 	}
@@ -672,8 +703,73 @@ func c10R5(c *Ctx) {
 	}
 }
 
+// c10R7v1: the cleanup goroutine reads the tomb's reason right after
+// nodesWg.Wait(); tomb.v2 records a goroutine's returned error only after all
+// of its deferred calls ran, so the node goroutine itself must Kill the tomb
+// with its result before the deferred nodesWg.Done() (F22).
+func c10R7v1(c *Ctx, r string) {
+	run := c.SSA(r, pLife, "(*Service).runPipeline")
+	kill := c.W.ExtMethod("gopkg.in/tomb.v2", "Tomb", "Kill")
+	done := c.W.ExtMethod("sync", "WaitGroup", "Done")
+	nodeRun := c.Fn(r, pStream, "Node.Run")
+	if run == nil || kill == nil || done == nil || nodeRun == nil {
+		c.R.Unresolved(r, "v1 runPipeline / tomb.Kill / WaitGroup.Done / stream.Node.Run")
+		return
+	}
+	lits := litsWith(run, c.Fam(nodeRun))
+	if len(lits) != 1 {
+		c.R.Fail(r, "v1 runPipeline: node goroutine", c.Pos(run.Pos()), "expected exactly one function literal calling Node.Run")
+		return
+	}
+	lit := lits[0]
+	var doneDefers, killDefers []*ssa.Defer
+	for _, b := range lit.Blocks {
+		for _, in := range b.Instrs {
+			d, ok := in.(*ssa.Defer)
+			if !ok {
+				continue
+			}
+			if kit.CalleeOf(&d.Call) == done {
+				doneDefers = append(doneDefers, d)
+			}
+			if cl := closureOf(d); cl != nil {
+				for _, k := range kit.CallsTo(cl, Set(kill)) {
+					// the killed-with value is the goroutine's own (named) result
+					arg := k.Common().Args[1]
+					own := false
+					if u, ok := arg.(*ssa.UnOp); ok && u.Op == token.MUL {
+						if fv, ok := u.X.(*ssa.FreeVar); ok {
+							if a, ok := kit.ResolveFreeVar(fv).(*ssa.Alloc); ok && a.Parent() == lit && isErrorType(a.Type().(*types.Pointer).Elem()) {
+								own = true
+							}
+						}
+					}
+					if own {
+						killDefers = append(killDefers, d)
+					}
+				}
+			}
+		}
+	}
+	if len(doneDefers) == 0 {
+		c.R.Fail(r, "v1 node goroutine: nodesWg.Done", c.Pos(lit.Pos()), "no deferred nodesWg.Done() found in the node goroutine")
+		return
+	}
+	for _, dd := range doneDefers {
+		ok := false
+		for _, kd := range killDefers {
+			// deferred calls run last-registered-first: the Kill closure must be registered after Done
+			if kit.InstrDominates(dd, kd) {
+				ok = true
+			}
+		}
+		c.R.Check(ok, r, "v1 node goroutine: tomb killed with the node's own error before nodesWg.Done()", c.Pos(dd.Pos()), "defer Kill(errOut) registered after defer nodesWg.Done()", "the node goroutine does not record its error on the tomb before nodesWg.Done(): the cleanup goroutine can pass nodesWg.Wait() and read tomb.ErrStillAlive for a run that failed — a failed pipeline is finalized as UserStopped, never degraded or recovered", true)
+	}
+}
+
 func c10R7(c *Ctx) {
-	r := c.R.Rule("R7", "K3 v2 root cause first: a worker goroutine kills the tomb with its own Do error (when non-nil) before it closes the worker", 2)
+	r := c.R.Rule("R7", "K3 root cause first: a v2 worker goroutine kills the tomb with its own Do error (when non-nil) before it closes the worker; a v1 node goroutine kills the tomb with its own result before it counts as stopped (nodesWg.Done)", 3)
+	c10R7v1(c, r)
 	run := c.SSA(r, pLife2, "(*Service).runPipeline")
 	if run == nil {
 		return
@@ -717,6 +813,8 @@ func runC11(c *Ctx) {
 	c11R8(c)
 	c11R9(c)
 	c11R10(c)
+	r11 := c.R.Rule("R11", "K5 frozen guarded-by table: pipeline.Instance.status is read and written only under statusLock (the status Start/Stop decide on is never a torn or stale read)", 2)
+	c.guardTable(r11, guardEntry{Rel: pPipe, Struct: "Instance", Mutex: "statusLock", Fields: []string{"status"}, Min: 2})
 }
 
 // c11R10: a run whose start-up fails after its nodes were started is ended
